@@ -74,6 +74,22 @@ CHECKS["C03"] = dict(
     note="Only the property's inequalities are demanded (a different valid bound never alarms). Exact optimum only in "
          "the scope (bins <= 3x3, <= 3 (4 thorough) items); beyond that upper bounds on the optimum by construction.")
 
+CHECKS["C07"] = dict(
+    category="model_checking", design_ref="DESIGN.md section 2 (C07)",
+    technique="round-robin feasibility oracle and documented error count in TLA+; TLC enumerates all 2-team plans x all "
+              "constraint settings and all day-consistent 4-team plans; the real counter's zero set must equal TLC's "
+              "feasible set; recorded evaluations validated clause by clause",
+    text="TTP.tla defines feasibility from the statement (everyone plays, mutual consistency, pair multiplicity and "
+         "balance, every maximal streak within limits incl. the last, separation of consecutive meetings) and the "
+         "documented per-rule count; MC_RR.tla checks oracle <=> count = 0 on all consistent plans of the scopes. "
+         "Every 2-team plan under every admissible setting and every day-wise consistent 4-team plan (12 per day; "
+         "single round robin quick, double thorough) is evaluated by the real Errors objective; Trace_TTP demands "
+         "zero <=> feasible, count = documented count where the documentation is unambiguous, 0 <= count <= declared "
+         "bound. Random plans n=4..12, random settings, seasons longer than 127 days.",
+    note="Two genuine defects found and fixed (final too-short streak; out-of-bounds pair index on self-play); one "
+         "open known finding (declared upper bound exceeded when minimum limits are above 1). Exhaustive only for 2 "
+         "and 4 teams.")
+
 NOT_YET = {
 }
 
